@@ -446,6 +446,11 @@ def range_handle_invariants(ctx, adt, prefix=()):
         facts.append(cmp_fact("Le", F(it_end[0]), F(ol[0])))
     if start and endf:
         facts.append(cmp_fact("Le", F(start[0]), F(endf[0])))
+    # a removal handle: index <= last_index (index < LEN at creation, last_index = LEN - 1)
+    li = roles.get("last_index", [])
+    ix = [k for k in roles.get("index", []) if not is_cursor_key(ctx, adt, k)]
+    if li and ix:
+        facts.append(cmp_fact("Le", F(ix[0]), F(li[0])))
     # the visible length was lowered to start / index at creation (R-LENLOWER)
     vp = roles.get("vecptr", [])
     lowered = start or [k for k in roles.get("index", []) if not is_cursor_key(ctx, adt, k)]
